@@ -209,7 +209,7 @@ def c02(ck):
     # every encoded length (the short option goes through char_pop_front and back through encode_utf8)
     for k, s_ in enumerate(sets):
         nm0 = (declgen.all_names(s_) or ["x"])[0]
-        for cp in gen.BOUNDARY_CPS + [0xE01, 0xFFF, 0x1000, 0xBF, 0x3F000]:
+        for cp in gen.BOUNDARY_CPS + [0xE01, 0xFFF, 0x1000, 0xBF, 0x3F000, 0x10D800, 0x10DC00, 0x10DFFF, 0x100000, 0xFFFFF, 0xF0000]:
             ch = chr(cp)
             for tail in ("-" + ch, "-v" + ch, "--" + ch + "x", ch + ch):
                 ses.append(lines_to_session(k, [declgen.q(nm0) + " " + declgen.q(tail)], cap=60))
@@ -539,6 +539,30 @@ def c13(ck):
                 return "before the prompt after `%s` there is not exactly the end of the last output line: ...%s" % (line, body[-40:])
         return None
 
+    # a hand-written `Help` (the public trait, on an enum declared with skip_help) whose listing and command help end WITHOUT a line break:
+    # the library still owes the line break before the prompt
+    names0 = declgen.all_names(sets[0])
+    flines = ["help", "help " + names0[0], names0[-1] + " --help", "help"]
+    fcases = ["40 32 %d dfoot %s" % (pi_, ";".join("b:" + gen.hx(l.encode()) + ";b:0d" for l in flines)) for pi_ in (1, 2, 3)]
+
+    def oracle_foot(case, io):
+        st = parse_steps(io)
+        if st is None:
+            return "crash / malformed output: " + io[:300]
+        k = 1
+        for l in flines:
+            k += len(l.encode()) + 1
+            f = st[k - 1]
+            out = sinkb(f["sink"])
+            foot = gen.hx(b"-- end of list") if l == "help" else gen.hx(b"(more in the manual)")
+            i_ = out.find(foot)
+            if i_ < 0:
+                return "the hand-written help text of `%s` is missing: %s" % (l, out[:200])
+            if not out[i_ + len(foot):].startswith("0d0a"):
+                return "the help text of `%s` ends mid-line and the prompt follows on the SAME line: ...%s" % (l, out[i_:])
+        return None
+
+    ck.run_family(Family("hand-written-help-footer", "ses", fcases, oracle=oracle_foot, impl_only=True, decisive=False, shrink=None, nontrivial=lambda c, o: True))
     ck.run_family(Family("derived-help-frames", "ses", hses, oracle=oracle_help, shrink=core.shrink_ops_line(4),
                          project=lambda o: [(x["r"], sinkb(x["sink"])) for x in (parse_steps(o) or [])] or o, nontrivial=lambda c, o: True))
     return ck.finish(trusted=TB_COMMON, rule="writer-frame: random texts (LF, CR LF, CR, empty) split over write_str/writeln_str/uwrite!/write! calls inside "
@@ -581,7 +605,13 @@ def c05(ck):
     for _ in range(6000 if thorough else 1500):
         ops = gen.rand_ed_ops(rng, rng.randrange(1, 12))
         for _i in range(rng.choice([1, 1, 2])):
-            cands = ",".join(gen.hx(rng.choice(gen.MB).encode("utf-8") * rng.choice([1, 2]) + rng.choice([b"", b"k"])) for _ in range(rng.choice([1, 2])))
+            if rng.randrange(4) == 0:
+                # two candidates that part INSIDE a character (same lead octet, same first continuation octets)
+                a_, b_ = rng.choice([("\u4f50", "\u4f57"), ("\U00011fc1", "\U00011fc6"), ("\uac00", "\uac01"), ("\u00e9", "\u00ea")])
+                pre_ = rng.choice(["", "k", "\u0436"])
+                cands = gen.hx((pre_ + a_ + "x").encode("utf-8")) + "," + gen.hx((pre_ + b_).encode("utf-8"))
+            else:
+                cands = ",".join(gen.hx(rng.choice(gen.MB).encode("utf-8") * rng.choice([1, 2]) + rng.choice([b"", b"k"])) for _ in range(rng.choice([1, 2])))
             ops.insert(rng.randrange(len(ops) + 1), "ac:" + cands)
             ops.insert(rng.randrange(len(ops) + 1), "i:" + "20" * rng.choice([1, 2, 3]))
         ccases.append("%d %s" % (rng.choice([4, 8, 9, 12, 16, 40]), ";".join(ops)))
@@ -635,6 +665,12 @@ def c10(ck):
     for _ in range(n):
         cases.append("%d %s" % (rng.choice([0, 1, 2, 3, 4, 5, 6, 7, 8, 9, 10, 12, 16, 24]), ";".join(gen.rand_hist_ops(rng, rng.randrange(1, 40)))))
     cases += gen.long_hist_cases(rng, 40 if thorough else 12)        # entries and buffers beyond 255 bytes
+    # a DEEP history: twenty / forty distinct short entries, then entries from far back submitted again (a search that gives up after some
+    # depth shows only here), walked to the end
+    for depth_ in (20, 40):
+        es_ = ["p:" + gen.hx(("%c%c" % (97 + i // 26, 97 + i % 26)).encode()) for i in range(depth_)]
+        for again in (0, 1, 2, depth_ // 2):
+            cases.append("%d %s" % (depth_ * 3 + 8, ";".join(es_ + [es_[again]] + ["o"] * (depth_ + 2) + ["n"] * 3)))
     spec = dict(zip(cases, drv_run("histspec", cases)))
 
     def oracle(case, io):
@@ -789,8 +825,8 @@ def c17(ck):
         ck.broken(b)
     # typed, echoed, moved over, deleted, submitted, recalled, used as short option: sessions on boundary scalars
     ses = []
-    for c in gen.BOUNDARY_CPS + gen.LOWBYTE_CPS + [gen.rand_cp(rng, 0) for _ in range(300 if thorough else 60)]:
-        if c in (0x20, 0x7F, 0x22, 0x5C, 0x2D) or 0xD800 <= c <= 0xDFFF:
+    for c in gen.BOUNDARY_CPS + gen.LOWBYTE_CPS + [0x30, 0x31, 0x39, 0x2E, 0x2B, 0x3D, 0x41, 0x5A, 0x61, 0x7A, 0x5F] + [gen.rand_cp(rng, 0) for _ in range(300 if thorough else 60)]:
+        if c in (0x20, 0x7F, 0x22, 0x5C, 0x2D, 0x68) or 0xD800 <= c <= 0xDFFF:
             continue
         e = gen.hx(gen.enc(c))
         ses.append("16 32 1 raw b:78%s20%s61;b:1b5b44;b:1b5b44;b:1b5b43;b:08;b:%s;b:0d;b:1b5b41;b:0d;b:63202d%s0d" % (e, e, e, e))
@@ -947,6 +983,17 @@ def c06(ck):
                                        "b:" + gen.hx(rng.choice(gen.W1_CHARS)), "w:s6869", "w:l6f6b", "p:%d" % rng.randrange(4), "b:0d"]))
             capx = len(text) + rng.choice([0, 1, 2, 3, 5, 8, 30])
             dses.append("%d 16 %d d%d %s" % (capx, rng.randrange(4), k, ";".join(ops)))
+    # submitted lines on derived sets: every kind of error line the library prints (unknown command, unexpected short / long option,
+    # unexpected argument, missing argument, unparsable value), help, accepted commands - then typing goes on: the prompt must stand on a
+    # fresh line after each of them
+    for k, s_ in enumerate(sets[:12] if not thorough else sets):
+        nm0 = declgen.q((declgen.all_names(s_) or ["x"])[0])
+        lines = [declgen.rand_decl_line(rng, s_) for _ in range(3)] + [nm0 + " -x", nm0 + " --nope", "nosuch", nm0 + " a b c d e f", nm0 + " -\u00e9"]
+        for e in declgen.set_enums(s_)[:2]:
+            for c_ in e["cmds"][:3]:
+                lines += declgen.missing_arg_lines(rng, c_)[:2] + declgen.value_edge_lines(rng, c_)[:3]
+        for i in range(0, len(lines), 6):
+            dses.append(lines_to_session(k, lines[i:i + 6], cap=100) + ";b:6162;b:1b5b44;w:s6f;b:0d")
     dses = sorted(set(dses))
     try:
         dimpl = core.run_engine(hb, "ses", dses)
@@ -1332,6 +1379,11 @@ def c03(ck):
             cap = rng.choice([0, 1, 2, 5, 9, 17, 33, 64, 120, 120, 120])
             dses.append("%d %d %d d%d %s" % (cap, rng.choice([0, 1, 7, 32, 64]), rng.randrange(4), k, ";".join(ops)))
     dses += tab_sweep_sessions(declgen, sets)
+    # what the library itself prints back: an undeclared short / long option and an unexpected argument made of characters of every length
+    for k, s_ in enumerate(sets[:6]):
+        nm0 = declgen.q((declgen.all_names(s_) or ["x"])[0])
+        for ch in ("\u00e9", "\u20ac", "\U0001f600", "\U00011fcc", "\U0010ffff"):
+            dses.append(lines_to_session(k, [nm0 + " -" + ch, nm0 + " -v" + ch + "x", nm0 + " --" + ch * 3, nm0 + " a b c d e " + ch], cap=60))
     # every value-taking argument of every command with the edge values of its type (empty, far too long, multi-byte, other case):
     # a conversion written for one field type panics only there
     for k, s_ in enumerate(sets):
@@ -1567,6 +1619,7 @@ def c09(ck):
                 lines += declgen.missing_arg_lines(rng, c_)       # each required argument missing on its own
                 lines += declgen.signed_boundary_lines(rng, c_)   # integer positionals at and beyond both ends of their range (after `--`)
                 lines += declgen.value_edge_lines(rng, c_)        # every value-taking argument with the edge values of its type
+                lines += declgen.double_dash_lines(rng, c_)       # more than one `--` on the line
         for i in range(0, len(lines), 8):
             cases.append(lines_to_session(k, lines[i:i + 8], cap=120))
         # the second time: the same line again right away, after a rejected line, after a help request
@@ -1688,6 +1741,45 @@ def c12(ck):
     hl = sorted(set(hl))
     ck.run_family(Family("help-routing-sessions", "ses", hl, oracle=make_abstract_oracle(hl, fields=("calls",)), shrink=None,
                          project=lambda o: [x["calls"] for x in (parse_steps(o) or [])] or o, nontrivial=lambda c, o: True))
+    # the README's shape: a group whose last member is the library's own RawCommand (it parses every line, completes nothing, and knows
+    # no command when asked for help). Not in the model; judged by the property's own words.
+    names0 = declgen.all_names(sets[0])
+    rlines = ["help", "help nosuch", "nosuch -h", "nosuch --help x", "nosuch -vh", "nosuch a b", "help " + names0[0], names0[0] + " --help", names0[-1] + " -h",
+              "help nosuch " + names0[0], "x -- -h", "help"]
+    rcases = ["%d 32 %d draw %s" % (cap_, pi_, ";".join("b:" + gen.hx(l.encode()) + ";b:0d" for l in rlines)) for cap_ in (40, 64) for pi_ in (1, 2)]
+
+    def oracle_rawmember(case, io):
+        st = parse_steps(io)
+        if st is None:
+            return "crash / malformed output: " + io[:300]
+        k = 1
+        unknown = gen.hx(b"error: unknown command")
+        for l in rlines:
+            k += len(l.encode()) + 1
+            f = st[k - 1]
+            out = sinkb(f["sink"])
+            if l in ("help nosuch", "nosuch -h", "nosuch --help x", "nosuch -vh", "help nosuch " + names0[0]):
+                if f["calls"] != "-":
+                    return "help-shaped line `%s` reached the handler: %s" % (l, f["calls"])
+                if not out.startswith("0d0a" + unknown + "0d0a"):
+                    return "help about the unknown command in `%s` (group with a RawCommand member) does not print `error: unknown command`: sink %s" % (l, out)
+            elif l in ("nosuch a b", "x -- -h"):
+                if f["calls"] != "R" + gen.hx(l.split(" ")[0].encode()):
+                    return "the line `%s` must reach the RawCommand member of the group, handler saw %s" % (l, f["calls"])
+            elif l == "help":
+                if f["calls"] != "-":
+                    return "`help` reached the handler"
+                txt = bytes.fromhex(out).decode("utf-8", "replace").split("\r\n")
+                firsts = [x.split()[0] for x in txt if x.startswith("  ") and x.split()]
+                if sorted(firsts) != sorted(names0):
+                    return "`help` of the group lists %s, expected each of %s exactly once" % (firsts, names0)
+            else:
+                if f["calls"] != "-" or unknown in out or len(out) < 40:
+                    return "help for the known command in `%s` is missing: calls %s, sink %s" % (l, f["calls"], out[:120])
+        return None
+
+    ck.run_family(Family("group-with-rawcommand-member", "ses", rcases, oracle=oracle_rawmember, impl_only=True, decisive=False, shrink=None,
+                         nontrivial=lambda c, o: True))
     return ck.finish(trusted=TB_COMMON + ["gen/declgen.py (declarations sampled: corpus + random sets each run)"],
                      rule="for every generated declaration set: `help`, `help <name>` and `<name> -h` for every declared name (hidden ones too), `help nope`, help options inserted at every "
                      "position of generated invocations, `help` followed by nested sub-command paths; direct oracle: no help-shaped line reaches the handler, `help` lists every visible "
